@@ -113,6 +113,7 @@ type c4Justice struct {
 	BSL         []c4SL `json:"bsl"`
 	BAll        int    `json:"ball"` // batched case: spend-all justice tx built and every input valid
 	Rec         int    `json:"rec"`  // y = 2: the chain watcher handed over a retribution for exactly this state
+	Legacy      int    `json:"legacy"` // the state is stored in the deprecated (pre-0.15) revocation log format
 	Hung        int    `json:"hung"` // y = 2: handleCommitSpend did not return
 	Note        string `json:"note"` // first interpreter error, for the human reader only
 }
@@ -262,7 +263,7 @@ func c4Persisted(ri *retributionInfo) (*retributionInfo, error) {
 // verifDiverged: a schedule step the real objects cannot take.
 type verifDiverged string
 
-func c4Punish(victim, cheater *c4Side, h uint64, withTx bool, noAmt bool, thaw uint32) c4Justice {
+func c4Punish(victim, cheater *c4Side, h uint64, withTx bool, noAmt bool, thaw uint32, legacyK uint64) c4Justice {
 	ln := c4Justice{c4Ev: c4Ev{A: "Justice", P: victim.name, X: int(h)}, Ins: []c4In{}, SL: []c4SL{}, BSL: []c4SL{},
 		Hint: -1, OurIdx: -1, TheirIdx: -1, OurAmtLog: -1, TheirAmtLog: -1}
 	if withTx {
@@ -270,6 +271,9 @@ func c4Punish(victim, cheater *c4Side, h uint64, withTx bool, noAmt bool, thaw u
 	}
 	if noAmt {
 		ln.NoAmt = 1
+	}
+	if h < legacyK {
+		ln.Legacy = 1
 	}
 	live := victim.lc.State()
 	chans, err := live.Db.FetchOpenChannels(live.IdentityPub)
@@ -715,6 +719,14 @@ func TestVerifC04Justice(t *testing.T) {
 		// every fourth history runs on a database that stores no amounts
 		// in the revocation log (channeldb option no-rev-log-amt-data)
 		noAmt := (fi+int(verifkit.Seed()))%4 == 3
+		// every fifth history is a channel that was in use before the compact
+		// revocation log existed and whose owner never ran the optional
+		// migration: its first legacyK revoked states are stored in the
+		// deprecated bucket (full commitments), later ones in the new log
+		legacyK := uint64(0)
+		if (fi+int(verifkit.Seed()))%5 == 1 {
+			legacyK = uint64(2 + fi%3)
+		}
 		alice, bob, err := lnwallet.CreateTestChannels(t, ctype, channeldb.OptionNoRevLogAmtData(noAmt))
 		if err != nil {
 			t.Fatal(err)
@@ -855,7 +867,15 @@ func TestVerifC04Justice(t *testing.T) {
 						}
 					}
 				case "RecvRev":
+					revoked := me.lc.State().RemoteCommitment
 					_, _, err = me.lc.ReceiveRevocation(pop().rev)
+					if err == nil && legacyK > 0 && revoked.CommitHeight < legacyK {
+						// this state was revoked "before the upgrade": it
+						// is on disk in the deprecated format only
+						if derr := channeldb.VerifDemoteRevLog(me.lc.State(), revoked); derr != nil {
+							t.Fatalf("demote revocation log entry: %v", derr)
+						}
+					}
 				case "UpdateFee":
 					err = me.lc.UpdateFee(chainfee.SatPerKWeight(e.X))
 					if err == nil {
@@ -946,7 +966,7 @@ func TestVerifC04Justice(t *testing.T) {
 			top := victim.lc.State().RemoteCommitment.CommitHeight
 			for h := uint64(1); h < top; h++ {
 				for _, withTx := range []bool{true, false} {
-					out.Emit(c4Punish(victim, cheater, h, withTx, noAmt, thaw))
+					out.Emit(c4Punish(victim, cheater, h, withTx, noAmt, thaw, legacyK))
 					njust++
 				}
 			}
@@ -974,6 +994,9 @@ func TestVerifC04Justice(t *testing.T) {
 			}
 			for h := uint64(1); h < top; h++ {
 				wl := c4Watch(victim, cheater, w, &got, h, noAmt)
+				if h < legacyK {
+					wl.Legacy = 1
+				}
 				out.Emit(wl)
 				njust++
 				if wl.Hung == 1 {
